@@ -4,8 +4,8 @@ from common import *
 import decl, pktcases
 
 PID = 'C06'
-TARGETS = ['Properties/C06.vo', 'Bridge/DataBridge.vo']
-KERNELS = ['G8_data']
+TARGETS = ['Properties/C06.vo', 'Bridge/DataBridge.vo', 'Bridge/PlumbingBridge.vo']
+KERNELS = ['G8_data', 'G19_field_ctor']
 PROP_FILE = 'Properties/C06.v'
 
 
